@@ -66,6 +66,23 @@ def cases(rng, rounds):
             exp = {'raises': 'IndexError' if isinstance(e, IndexError) and not isinstance(e, ValueError) else 'ValueError'}
         out.append({'fn': fn, 'args': [_enc(a) for a in args], 'kw': {k: _enc(v) for k, v in kw.items()}, 'expect': exp})
 
+    # element-wise kind tables UFUNC1 / UFUNC2: every function, every kind tuple (ground, exhaustive)
+    U1 = ['negative', 'absolute', 'logical_not', 'real', 'imag', 'conjugate', 'sign', 'reciprocal', 'sin', 'cos', 'tan', 'arcsin', 'arccos', 'arctan', 'sinc',
+          'sinh', 'cosh', 'tanh', 'arctanh', 'exp', 'log']
+    U2 = ['greater', 'less', 'equal', 'minimum', 'maximum', 'floor_divide', 'mod', 'power', 'arctan2']
+    for name in U1:
+        for k1 in range(4):
+            x = numpy.full((2,), 0.5).astype([bool, int, float, complex][k1])
+            rec('ufunc:' + name, lambda: getattr(numpy, name)(x), x)
+    for name in U2:
+        for k1 in range(4):
+            for k2 in range(4):
+                x, y = numpy.ones((2, 1)).astype([bool, int, float, complex][k1]), numpy.ones((3,)).astype([bool, int, float, complex][k2])
+                rec('ufunc:' + name, lambda: getattr(numpy, name)(x, y), x, y)
+    for k1 in range(4):
+        for k2 in range(4):
+            x = numpy.ones((2,)).astype([bool, int, float, complex][k1])
+            rec('array', lambda: numpy.array(x, dtype=KINDS[k2]), x, dtype=KINDS[k2])
     for _ in range(rounds):
         r = int(rng.randint(0, 4))
         k = int(rng.randint(0, 4))
@@ -253,6 +270,10 @@ def model_main(path):
         try:
             if fn in ('transpose', 'moveaxis', 'sum', 'prod', 'any', 'all', 'take', 'argsort', 'repeat', 'einsum', 'arange', 'searchsorted', 'choose', 'empty'):
                 r = NP.sym_getattr(ctx, fn)(ctx, *a, **kw)
+            elif fn.startswith('ufunc:'):
+                r = NP.sym_getattr(ctx, fn[6:])(ctx, *a)
+            elif fn == 'array':
+                r = nps.np_array(ctx, *a, **kw)
             elif fn == 'det':
                 r = nps.np_det(ctx, *a)
             elif fn == 'inv':
